@@ -1,4 +1,5 @@
 import ColumnVerif.Lemmas.Buffer
+import ColumnVerif.Lemmas.Wire
 /-!
 # C05 — commit buffers, commits and logs round-trip every operation sequence
 
@@ -50,4 +51,179 @@ example : ((Buf.empty "x").putAll sampleOps).rangeOps 0 =
     [⟨opPut, 5, .fixed 1 [1, 2]⟩, ⟨opPut, 6, .fixed 3 [0,0,0,0,0,0,0,9]⟩, ⟨opDelete, 6, .fixed 0 []⟩,
      ⟨opPut, 0, .fixed 2 [1,2,3,4]⟩] := by decide
 
+
+/-! ## The wire format (`Model/Wire`): `iostream` primitives, `Buffer.WriteTo/ReadFrom`,
+`Commit.WriteTo/ReadFrom`, `Log.Range`
+
+Every statement has the shape "decoding `encoding ++ rest` returns the value and leaves exactly
+`rest`" (with the stream's end flag `e` untouched), for **all** values that fit the field widths.
+Spec-level names used below (defined in `Lemmas/Wire`, all plain functions of the model's data):
+`chunkSecs chunk b` = the sections of `b` whose header says `chunk`, in write order;
+`chunkData chunk b` = their bytes; `commitBufRaw chunk b` = what `Commit.ReadFrom` rebuilds for
+`b`; `Commit.toRaw c` = `⟨c.id, c.chunk, c.updates.map (commitBufRaw c.chunk)⟩`;
+`RawBuf.WF`, `BufFits`, `Commit.WF` = the size bounds of the format (see there). -/
+section Wire
+open ColumnVerif.Wire
+
+/-- A1 `WriteUvarint`/`ReadUvarint`: every `uint64` (1 to 10 bytes, including the 10-byte
+    overflow guard). -/
+theorem uvarint_roundtrip (x : Nat) (hx : x < 2 ^ 64) (rest : Bytes) (e : Bool) :
+    readUvarint ⟨encUvarint x ++ rest, e⟩ = .ok (x, ⟨rest, e⟩) :=
+  uvarint_reads x hx rest e
+
+/-- A2 `Slice(n)`. -/
+theorem readN_roundtrip (b rest : Bytes) (e : Bool) :
+    readN b.length ⟨b ++ rest, e⟩ = .ok (b, ⟨rest, e⟩) :=
+  readN_reads b rest e
+
+/-- A2 little-endian `uint32`. -/
+theorem u32_roundtrip (v : Nat) (hv : v < 2 ^ 32) (rest : Bytes) (e : Bool) :
+    readU32 ⟨encU32 v ++ rest, e⟩ = .ok (v, ⟨rest, e⟩) :=
+  u32_reads v hv rest e
+
+/-- A2 `WriteBytes`/`ReadBytes`. -/
+theorem bytes_roundtrip (b : Bytes) (hb : b.length < 2 ^ 64) (rest : Bytes) (e : Bool) :
+    readBytes ⟨encBytes b ++ rest, e⟩ = .ok (b, ⟨rest, e⟩) :=
+  bytes_reads b hb rest e
+
+/-- A2 `WriteString`/`ReadBytes`: the UTF-8 bytes of the string. -/
+theorem string_roundtrip (s : String) (hs : s.toUTF8.toList.length < 2 ^ 64) (rest : Bytes) (e : Bool) :
+    readBytes ⟨encString s ++ rest, e⟩ = .ok (s.toUTF8.toList, ⟨rest, e⟩) :=
+  bytes_reads _ hs rest e
+
+/-- A2 one big-endian header triple `(Chunk, Start, Value)`. -/
+theorem header_roundtrip (h : Nat × Nat × Nat) (h1 : h.1 < 2 ^ 32) (h2 : h.2.1 < 2 ^ 32)
+    (h3 : h.2.2 < 2 ^ 32) (rest : Bytes) (e : Bool) :
+    readHeader ⟨encHeader h ++ rest, e⟩ = .ok (h, ⟨rest, e⟩) :=
+  header_reads h ⟨h1, h2, h3⟩ rest e
+
+/-- A2 `n` items in a row, given the item round trip. -/
+theorem readMany_roundtrip {α} (d : Dec α) (enc : α → Bytes) (as : List α)
+    (h : ∀ a ∈ as, ∀ rest e, d ⟨enc a ++ rest, e⟩ = .ok (a, ⟨rest, e⟩)) (rest : Bytes) (e : Bool) :
+    readMany d as.length ⟨(as.map enc).flatten ++ rest, e⟩ = .ok (as, ⟨rest, e⟩) :=
+  many_reads d enc as h rest e
+
+/-- A2 `WriteRange`/`ReadRange`: count, then the items. -/
+theorem readRange_roundtrip {α} (d : Dec α) (enc : α → Bytes) (as : List α) (hl : as.length < 2 ^ 64)
+    (h : ∀ a ∈ as, ∀ rest e, d ⟨enc a ++ rest, e⟩ = .ok (a, ⟨rest, e⟩)) (rest : Bytes) (e : Bool) :
+    readRange d ⟨encUvarint as.length ++ (as.map enc).flatten ++ rest, e⟩ = .ok (as, ⟨rest, e⟩) :=
+  range_reads d enc as hl h rest e
+
+/-- A3 `Buffer.WriteTo`/`ReadFrom` on the raw record. -/
+theorem rawbuf_roundtrip (r : RawBuf) (hWF : r.WF) (rest : Bytes) (e : Bool) :
+    readRawBuf ⟨encRawBuf r ++ rest, e⟩ = .ok (r, ⟨rest, e⟩) :=
+  rawbuf_reads r hWF rest e
+
+/-- A4 slicing the derived byte slice along the derived header table and decoding every slice from
+    its header's `Value` gives back all sections — chunk, value and the operations of each
+    (`Sec.ops = rops.reverse`, and a `Sec` is determined by `chunk`, `value`, `rops`). -/
+theorem buffer_sections_roundtrip (b : Buf) (h : b.Inv) :
+    sectionsOf b.headers b.bytes = some b.secs :=
+  sectionsOf_buf b h
+
+/-- A4 the same, spelled out per section. -/
+theorem buffer_sections_roundtrip_ops (b : Buf) (h : b.Inv) :
+    ∃ secs, sectionsOf b.headers b.bytes = some secs ∧
+      secs.map (fun s => (s.chunk, s.value, s.ops)) = b.secs.map (fun s => (s.chunk, s.value, s.ops)) :=
+  ⟨b.secs, sectionsOf_buf b h, rfl⟩
+
+/-- A4 the column name survives the UTF-8 round trip (no hypothesis needed). -/
+theorem column_roundtrip (s : String) : String.fromUTF8? ⟨s.toUTF8.toList.toArray⟩ = some s :=
+  fromUTF8_toUTF8 s
+
+/-- A4 `toBuf ∘ toRaw`: column, `last` and all sections are recovered; the writer-side field `cur`
+    is rebuilt from the last header. -/
+theorem buffer_toBuf_roundtrip (b : Buf) (h : b.Inv) :
+    (Buf.toRaw b).toBuf = some { b with cur := b.rsecs.head?.map Sec.chunk } :=
+  toRaw_toBuf b h
+
+/-- A4 … which is `b` itself unless `b` was reset while holding sections (`cur = none`). -/
+theorem buffer_toBuf_roundtrip_eq (b : Buf) (h : b.Inv) (hc : b.cur = none → b.rsecs = []) :
+    (Buf.toRaw b).toBuf = some b :=
+  toRaw_toBuf_eq b h hc
+
+/-- A3+A4 end to end for a buffer filled through the writer API: write, read, rebuild = identity. -/
+theorem buffer_wire_roundtrip (col : String) (ops : List Op) (hw : ∀ o ∈ ops, o.WF)
+    (hfit : (Buf.toRaw ((Buf.empty col).putAll ops)).WF) (rest : Bytes) (e : Bool) :
+    ∃ raw, readRawBuf ⟨encBuf ((Buf.empty col).putAll ops) ++ rest, e⟩ = .ok (raw, ⟨rest, e⟩) ∧
+      raw.toBuf = some ((Buf.empty col).putAll ops) := by
+  refine ⟨_, rawbuf_reads _ hfit rest e, ?_⟩
+  exact toRaw_toBuf_eq _ (Buf.putAll_inv _ _ (Buf.empty_inv col) hw)
+    (Buf.putAll_cur _ _ (fun _ => rfl))
+
+/-- the size hypothesis `RawBuf.WF` follows from the invariant and four plain bounds -/
+theorem buffer_fits (b : Buf) (h : b.Inv) (hname : b.column.toUTF8.toList.length < 2 ^ 64)
+    (hcount : b.secs.length < 2 ^ 64) (hdata : b.bytes.length < 2 ^ 32)
+    (hchunk : ∀ s ∈ b.secs, s.chunk < 2 ^ 32) : (Buf.toRaw b).WF :=
+  Buf.toRaw_wf b h hname hcount hdata hchunk
+
+/-- A5 `Commit.WriteTo`/`ReadFrom`: the decoder returns exactly `c.toRaw` … -/
+theorem commit_roundtrip (c : Commit) (h : c.WF) (rest : Bytes) (e : Bool) :
+    readCommit ⟨encCommit c ++ rest, e⟩ = .ok (c.toRaw, ⟨rest, e⟩) :=
+  commit_reads c h rest e
+
+/-- A5 … whose `i`-th buffer, sliced along its rebuilt header table and decoded, is the list of
+    sections of chunk `c.chunk` of the `i`-th update, in write order. -/
+theorem commit_roundtrip_sections (c : Commit) (h : c.WF) (hinv : ∀ b ∈ c.updates, b.Inv)
+    (rest : Bytes) (e : Bool) :
+    ∃ raw, readCommit ⟨encCommit c ++ rest, e⟩ = .ok (raw, ⟨rest, e⟩) ∧
+      raw.id = c.id ∧ raw.chunk = c.chunk ∧ raw.updates.length = c.updates.length ∧
+      ∀ i (hi : i < c.updates.length) (hi' : i < raw.updates.length),
+        raw.updates[i].column = c.updates[i].column.toUTF8.toList ∧
+        sectionsOf raw.updates[i].headers raw.updates[i].data =
+          some (c.updates[i].secs.filter (fun s => s.chunk = c.chunk)) := by
+  refine ⟨c.toRaw, commit_reads c h rest e, rfl, rfl, by simp [Commit.toRaw], ?_⟩
+  intro i hi hi'
+  simp only [Commit.toRaw, List.getElem_map]
+  exact ⟨rfl, sectionsOf_commitBufRaw c.chunk c.updates[i] (hinv _ (List.getElem_mem hi))⟩
+
+/-- A5 … so a reader walking the received buffer sees exactly `Buf.range` of the sender. -/
+theorem commit_roundtrip_ops (c : Commit) (hinv : ∀ b ∈ c.updates, b.Inv) (b : Buf)
+    (hb : b ∈ c.updates) :
+    (sectionsOf (commitBufRaw c.chunk b).headers (commitBufRaw c.chunk b).data).map
+      (fun secs => secs.map Sec.ops) = some (b.range c.chunk) := by
+  rw [sectionsOf_commitBufRaw c.chunk b (hinv b hb)]; rfl
+
+/-- A6 `Log.Range` over an intact log delivers every commit, in order, and reports no error. -/
+theorem log_roundtrip (cs : List Commit) (h : ∀ c ∈ cs, c.WF) :
+    rangeLog ⟨(cs.map encCommit).flatten, false⟩ = (cs.map Commit.toRaw, false) :=
+  rangeLog_all cs h
+
+/-! non-vacuity of the size hypotheses: a two-buffer commit built through the writer API -/
+def sampleBuf : Buf := (Buf.empty "col").putAll sampleOps
+def sampleBuf2 : Buf := (Buf.empty "other").putAll sampleOps
+def sampleCommit : Commit := ⟨7, 0, [sampleBuf, sampleBuf2]⟩
+
+theorem sampleBuf_inv : sampleBuf.Inv := Buf.putAll_inv _ _ (Buf.empty_inv _) (by decide)
+theorem sampleBuf2_inv : sampleBuf2.Inv := Buf.putAll_inv _ _ (Buf.empty_inv _) (by decide)
+
+theorem sampleBuf_fits : BufFits 0 sampleBuf :=
+  BufFits.of_inv 0 sampleBuf sampleBuf_inv (by rw [utf8_length]; decide) (by decide) (by decide)
+theorem sampleBuf2_fits : BufFits 0 sampleBuf2 :=
+  BufFits.of_inv 0 sampleBuf2 sampleBuf2_inv (by rw [utf8_length]; decide) (by decide) (by decide)
+
+/-- `Commit.WF` is satisfiable (and so are `BufFits`, `Buf.Inv`) -/
+theorem sampleCommit_wf : sampleCommit.WF := by
+  refine ⟨by decide, by decide, by decide, ?_⟩
+  intro b hb
+  simp only [sampleCommit, List.mem_cons, List.not_mem_nil, or_false] at hb
+  rcases hb with rfl | rfl
+  · exact sampleBuf_fits
+  · exact sampleBuf2_fits
+
+example : ∀ b ∈ sampleCommit.updates, b.Inv := by
+  intro b hb
+  simp only [sampleCommit, List.mem_cons, List.not_mem_nil, or_false] at hb
+  rcases hb with rfl | rfl
+  · exact sampleBuf_inv
+  · exact sampleBuf2_inv
+
+/-- `RawBuf.WF` is satisfiable: the whole sample buffer fits `Buffer.WriteTo` -/
+example : (Buf.toRaw sampleBuf).WF :=
+  buffer_fits sampleBuf sampleBuf_inv (by rw [utf8_length]; decide) (by decide) (by decide) (by decide)
+
+/-- the sample commit has sections in chunk 0 (the statements are not about empty data) -/
+example : (chunkSecs 0 sampleBuf).length = 3 := by decide
+
+end Wire
 end ColumnVerif.Props.C05
